@@ -20,6 +20,35 @@ type I0 = eqrel::rel_ind!(r, (u32, u32), [[], [0], [0, 1], [1]], par, (), [0], (
 type I1 = eqrel::rel_ind!(r, (u32, u32), [[], [0], [0, 1], [1]], par, (), [1], (u32,), (u32,));
 type INone = eqrel::rel_ind!(r, (u32, u32), [[], [0], [0, 1], [1]], par, (), [], (), (u32, u32));
 
+/// the key type of the full index is `&(T, T)` in the current source (which makes generated parallel code that
+/// reads the relation with both columns bound fail to compile, finding `par_full_index_key_type`) and would be
+/// `(T, T)` after a repair: the harness builds whichever the provider declares
+trait MkKey<'a> {
+   fn mk(k: &'a (u32, u32)) -> Self;
+}
+impl<'a> MkKey<'a> for (u32, u32) {
+   fn mk(k: &'a (u32, u32)) -> Self { *k }
+}
+impl<'a> MkKey<'a> for &'a (u32, u32) {
+   fn mk(k: &'a (u32, u32)) -> Self { k }
+}
+fn full_get<'a, I>(ind: &'a I, key: &'a (u32, u32)) -> Option<usize>
+where
+   I: RelIndexRead<'a>,
+   I::Key: MkKey<'a>,
+{
+   let k = <I::Key as MkKey>::mk(key);
+   ind.index_get(&k).map(|it| it.count())
+}
+fn c_full_get<'a, I>(ind: &'a I, key: &'a (u32, u32)) -> Option<usize>
+where
+   I: CRelIndexRead<'a>,
+   I::Key: MkKey<'a>,
+{
+   let k = <I::Key as MkKey>::mk(key);
+   ind.c_index_get(&k).map(|it| it.count())
+}
+
 #[derive(Default)]
 struct Ver {
    c: Common,
@@ -29,7 +58,7 @@ struct Ver {
    n: INone,
 }
 
-fn dump(v: &Ver, dom: u32) -> Vec<u64> {
+fn dump(v: &Ver, dom: u32) -> Vec<i64> {
    let d1 = dom + 1;
    let mut out = vec![];
    // ---------------- serial read traits
@@ -40,9 +69,9 @@ fn dump(v: &Ver, dom: u32) -> Vec<u64> {
       for x in 0..d1 {
          for y in 0..d1 {
             let key = (x, y);
-            if let Some(it) = RelIndexRead::index_get(&ind, &&key) {
+            if let Some(n) = full_get(&ind, &key) {
                get.add(0, x, y);
-               if it.count() != 1 {
+               if n != 1 {
                   badcnt += 1;
                }
             }
@@ -56,9 +85,9 @@ fn dump(v: &Ver, dom: u32) -> Vec<u64> {
             all.add(0, *k.0, *k.1);
          }
       }
-      out.push(get.masks[0]);
-      out.push(badcnt);
-      out.push(ck.masks[0]);
+      out.push(get.masks[0] as i64);
+      out.push(badcnt as i64);
+      out.push(ck.masks[0] as i64);
       all.out(&mut out);
    }
    {
@@ -78,7 +107,7 @@ fn dump(v: &Ver, dom: u32) -> Vec<u64> {
             all.add(0, k.0, *y);
          }
       }
-      out.push(some);
+      out.push(some as i64);
       get.out(&mut out);
       all.out(&mut out);
    }
@@ -99,7 +128,7 @@ fn dump(v: &Ver, dom: u32) -> Vec<u64> {
             all.add(0, *x, k.0);
          }
       }
-      out.push(some);
+      out.push(some as i64);
       get.out(&mut out);
       all.out(&mut out);
    }
@@ -118,7 +147,7 @@ fn dump(v: &Ver, dom: u32) -> Vec<u64> {
             all.add(0, *x, *y);
          }
       }
-      out.push(some);
+      out.push(some as i64);
       get.out(&mut out);
       all.out(&mut out);
    }
@@ -130,9 +159,9 @@ fn dump(v: &Ver, dom: u32) -> Vec<u64> {
       for x in 0..d1 {
          for y in 0..d1 {
             let key = (x, y);
-            if let Some(it) = CRelIndexRead::c_index_get(&ind, &&key) {
+            if let Some(n) = c_full_get(&ind, &key) {
                get.add(0, x, y);
-               if it.count() != 1 {
+               if n != 1 {
                   badcnt += 1;
                }
             }
@@ -147,9 +176,9 @@ fn dump(v: &Ver, dom: u32) -> Vec<u64> {
             all.add(0, x, y);
          }
       }
-      out.push(get.masks[0]);
-      out.push(badcnt);
-      out.push(ck.masks[0]);
+      out.push(get.masks[0] as i64);
+      out.push(badcnt as i64);
+      out.push(ck.masks[0] as i64);
       all.out(&mut out);
    }
    {
@@ -171,7 +200,7 @@ fn dump(v: &Ver, dom: u32) -> Vec<u64> {
             all.add(0, x, y);
          }
       }
-      out.push(some);
+      out.push(some as i64);
       get.out(&mut out);
       all.out(&mut out);
    }
@@ -194,7 +223,7 @@ fn dump(v: &Ver, dom: u32) -> Vec<u64> {
             all.add(0, x, y);
          }
       }
-      out.push(some);
+      out.push(some as i64);
       get.out(&mut out);
       all.out(&mut out);
    }
@@ -215,7 +244,7 @@ fn dump(v: &Ver, dom: u32) -> Vec<u64> {
             all.add(0, x, y);
          }
       }
-      out.push(some);
+      out.push(some as i64);
       get.out(&mut out);
       all.out(&mut out);
    }
